@@ -244,6 +244,38 @@ let lane_paged args =
              (match s'.st0 with Done0 -> "done" | Active0 -> "active" | SError1 -> "error") fin (String.concat ";" (List.map show_req s'.wire)))
   | _ -> "BAD-ARGS"
 
+(* ---- connection set-up (C18) and TLS establishment (C17) ---- *)
+let lane_setup args =
+  match args with
+  | [_; scheme; host; port; stls; std; tmo] ->
+      if scheme = "-" then "err:url" else begin
+        let st = { starttls0 = (stls = "1"); std_stream = (match std with "tcp" -> Some StTcp | "unix" -> Some StUnix | "invalid" -> Some StInvalid | _ -> None); has_timeout = (tmo <> "none") } in
+        let h = if host = "none" then None else Some (bytes_of_hex host) in
+        let p = if port = "none" then None else Some (n_of_decimal port) in
+        let mode = function Plain -> "plain" | StartTls -> "starttls" | Ldaps -> "ldaps" in
+        match plan_of repaired18 (bytes_of_string scheme) h p st with
+        | PPanic -> "panic"
+        | PErr0 EEmptyUnixPath -> "err:emptyunix" | PErr0 EPortInUnixPath -> "err:portunix" | PErr0 EMismatched -> "err:mismatched" | PErr0 EUnknownScheme -> "err:scheme"
+        | PTcp (_, port, m, _) -> Printf.sprintf "tcp port=%s mode=%s" (decimal_of_n port) (mode m)
+        | PPreTcp (m, _) -> "pretcp mode=" ^ mode m
+        | PUnix path -> "unix path=" ^ hex_of_bytes path
+        | PPreUnix -> "preunix"
+      end
+  | _ -> "BAD-ARGS"
+let lane_tls args =
+  match args with
+  | [scheme; stls; nov; connector; answer; cert; hs; _extra] ->
+      let c = { ldaps = (scheme = "ldaps"); starttls1 = (stls = "1"); no_tls_verify = (nov = "1");
+                custom_connector_accepts_invalid = (if connector = "ca" then Some false else None) } in
+      let ans = (match answer with "success" -> AnsSuccess | "garbage" -> AnsGarbage | "close" -> AnsClose | "otherid" -> AnsOtherIdFirst
+                 | rc -> AnsRc (n_of_decimal (String.sub rc 2 (String.length rc - 2)))) in
+      (* oracle inputs: the certificate is trusted for the host name only when it chains to the CA the connector was given *)
+      let sv = { answer = ans; cert_trusted_for_host = (cert = "trusted" && connector = "ca"); handshake_completes = (hs = "1"); bytes_after_response = [] } in
+      let r = establish true c sv in
+      (match r.result1 with
+       | Established Tls -> "ok transport=tls" | Established Clear -> "ok transport=clear" | Failed -> "err" | NeverReturns -> "hang")
+  | _ -> "BAD-ARGS"
+
 let dispatch lane args =
   match lane with
   | "parse" -> lane_parse args
@@ -262,6 +294,9 @@ let dispatch lane args =
   | "conn" -> Connrun.run_script args
   | "msgid" -> lane_msgid args
   | "stream" -> lane_stream args
+  | "setup" -> lane_setup args
+  | "setupx" -> "oracle-only"
+  | "tls" -> lane_tls args
   | "paged" -> lane_paged args
   | "ctl" -> lane_ctl args
   | "exop" -> lane_exop args
